@@ -23,7 +23,7 @@ CLS = 'UnixFileLock'
 FILES = ['aiuti/filelock.py']
 I = z3.IntSort()
 
-ALLOWED_EFFECTS = {'os.open', 'os.close', 'fcntl.flock', 'flock.mode', 'time.sleep',
+ALLOWED_EFFECTS = {'os.open', 'os.close', 'fcntl.flock', 'flock.mode', 'time.sleep', 'os.fstat', 'os.stat', 'os.lstat',
                    'TLock.release', 'TLock.release.notheld'}
 
 
@@ -747,6 +747,12 @@ def t_init(E):
                      z3.And(d == 0, lock_inv(E, o)))
             E.oblige(f.qualname + '/ensures.default_timeout_stored',
                      stubs._real(o.fields['timeout']) == to.t)
+        lf = o.fields.get('_lock_file')
+        E.oblige(f.qualname + '/ensures.lock_file_is_the_path_given_unchanged',
+                 z3.BoolVal(lf is path or (isinstance(lf, VVal) and z3.eq(lf.t, path.t))), props={'C02', 'C12', 'C13'},
+                 detail='two contenders that name the same file lock the same file only if the path reaches open() as '
+                        'the OS would resolve it: abspath/normpath collapse `..` textually (before a symlinked '
+                        'directory is resolved), expanduser/realpath pick another spelling at construction time')
     E.run_paths(body)
 
 
@@ -791,7 +797,7 @@ def t_lemmas(E):
 
 
 TASKS = {
-    'filelock.__init__': (t_init, {'C12'}),
+    'filelock.__init__': (t_init, {'C12', 'C02', 'C13'}),
     'filelock.acquire': (t_acquire, {'C02', 'C12', 'C13'}),
     'filelock.release': (t_release, {'C02', 'C12', 'C13'}),
     'filelock.__enter__': (t_enter, {'C02', 'C12'}),
